@@ -107,6 +107,9 @@ func (sc c35Scenario) render() string {
 }
 
 type c35Fault struct {
+	// CancelOp > 0: the context of the Sync call is cancelled right after its bucket operation with
+	// this number was carried out (shutdown, or the per-sync timeout of receive); -1: before the call.
+	CancelOp  int
 	FailOp    int
 	FreezeMut int
 	Before    bool
@@ -114,6 +117,10 @@ type c35Fault struct {
 
 func (f c35Fault) String() string {
 	switch {
+	case f.CancelOp > 0:
+		return fmt.Sprintf("cancel-after-op%d", f.CancelOp)
+	case f.CancelOp < 0:
+		return "cancel-before-sync"
 	case f.FailOp > 0:
 		return fmt.Sprintf("fail@op%d", f.FailOp)
 	case f.FreezeMut > 0 && f.Before:
@@ -213,6 +220,9 @@ func c35RunHistory(sc c35Scenario, fault c35Fault, known bool, work string) (out
 	mkBucket := func(f c35Fault) *opBucket {
 		ob := newOpBucket(inner)
 		ob.failOp, ob.freezeMut, ob.freezeBefore = f.FailOp, f.FreezeMut, f.Before
+		if f.CancelOp > 0 {
+			ob.cancelAfterOp = f.CancelOp
+		}
 		ob.observe = func(o opRec) {
 			if o.Kind == "upload" && strings.HasSuffix(o.Name, "/meta.json") {
 				uploadLabels[strings.SplitN(o.Name, "/", 2)[0]] = curLabels
@@ -249,6 +259,7 @@ func c35RunHistory(sc c35Scenario, fault c35Fault, known bool, work string) (out
 	}
 	present := map[int]bool{}
 	relabelled := false
+	preCancelled := false
 	var sh *shipper.Shipper
 	for pi, ph := range sc.Phases {
 		// --- environment changes before the phase (not under test)
@@ -329,8 +340,19 @@ func c35RunHistory(sc c35Scenario, fault c35Fault, known bool, work string) (out
 					}
 				}
 			}
-			theSh := sh
-			run := runCrashable(ob, func(ctx context.Context) error { _, err := theSh.Sync(ctx); return err })
+			theSh, theOb := sh, ob
+			run := runCrashable(ob, func(ctx context.Context) error {
+				cctx, cancel := context.WithCancel(ctx)
+				defer cancel()
+				theOb.armCancel(cancel)
+				if fault.CancelOp < 0 && !preCancelled {
+					preCancelled = true
+					theOb.cancelNow()
+					out.FaultHit = true
+				}
+				_, err := theSh.Sync(cctx)
+				return err
+			})
 			if run.Panic != nil {
 				out.Viol = fmt.Sprintf("phase %d: Sync panicked: %v", pi, run.Panic)
 				return
@@ -368,6 +390,13 @@ func c35RunHistory(sc c35Scenario, fault c35Fault, known bool, work string) (out
 				continue
 			}
 			logf("phase %d attempt %d: Sync err=%v", pi, attempt, run.Err)
+			if nops, _ := firstOb.counts(); fault.CancelOp > 0 && !out.FaultHit && nops >= fault.CancelOp {
+				out.FaultHit = true
+				classes["sync-context-cancelled-between-operations"] = true
+				if run.Err == nil {
+					classes["cancelled-sync-returned-nil"] = true
+				}
+			}
 			if nops, _ := firstOb.counts(); fault.FailOp > 0 && !out.FaultHit && nops >= fault.FailOp {
 				out.FaultHit = true
 				out.PartialAtFault = len(c35PartialDirs(inner.Objects())) > 0
@@ -619,6 +648,12 @@ func c35Enumerate(sc c35Scenario, known bool, work string, sink func(key string,
 	for n := 1; n <= base.Ops; n++ {
 		faults = append(faults, c35Fault{FailOp: n})
 	}
+	if base.Ops > 0 {
+		faults = append(faults, c35Fault{CancelOp: -1})
+	}
+	for n := 1; n <= base.Ops; n++ {
+		faults = append(faults, c35Fault{CancelOp: n})
+	}
 	for _, f := range faults {
 		o := c35RunHistory(sc, f, known, work)
 		if o.Viol != "" {
@@ -632,7 +667,9 @@ func c35Enumerate(sc c35Scenario, known bool, work string, sink func(key string,
 			return fmt.Sprintf("HARNESS: %s: the fault point was never reached (M=%d ops=%d)\nlog: %s", f, base.Muts, base.Ops, o.Log), ""
 		}
 		cls := append(append([]string{}, o.Classes...), scCls...)
-		if f.FailOp > 0 {
+		if f.CancelOp != 0 {
+			cls = append(cls, "cancel")
+		} else if f.FailOp > 0 {
 			cls = append(cls, "fail-op")
 		} else {
 			cls = append(cls, "crash")
